@@ -20,7 +20,7 @@
 (* occur against all the values of each enumerated dimension without        *)
 (* multiplying the number of cases.                                         *)
 (***************************************************************************)
-EXTENDS NeighMoving, Json, IOUtils
+EXTENDS NeighMoving, Json, IOUtils, SequencesExt
 
 CONSTANTS MaxN,      \* maximum number of candidates
           MaxDir,    \* maximum number of placement sectors
@@ -45,12 +45,12 @@ NMetric == Len(Geom.names)
 
 -----------------------------------------------------------------------------
 Fact(n) == CASE n <= 1 -> 1 [] n = 2 -> 2 [] n = 3 -> 6 [] n = 4 -> 24 [] n = 5 -> 120 [] n = 6 -> 720 [] OTHER -> 5040
-RemoveAt(s, k) == SubSeq(s, 1, k - 1) \o SubSeq(s, k + 1, Len(s))
+DropAt(s, k) == SubSeq(s, 1, k - 1) \o SubSeq(s, k + 1, Len(s))
 RECURSIVE KthPerm(_, _)
 KthPerm(els, k) == IF Len(els) = 0 THEN <<>>
                    ELSE LET f == Fact(Len(els) - 1)
                             q == k \div f
-                        IN <<els[q + 1]>> \o KthPerm(RemoveAt(els, q + 1), k % f)
+                        IN <<els[q + 1]>> \o KthPerm(DropAt(els, q + 1), k % f)
 
 SingleKinds == << <<FALSE, TRUE, TRUE, FALSE>>,    \* masked
                   <<TRUE, FALSE, TRUE, FALSE>>,    \* all variables undefined
@@ -120,10 +120,10 @@ Inv_Core ==
             /\ WellFormed(case)
             /\ Algorithm(case) = d
             /\ (case.nmaxi > 0 => Len(d) <= case.nmaxi)
-            /\ Range(d) \subseteq Admissible(case)
+            /\ RangeOf(d) \subseteq Admissible(case)
             \* "the nmaxi closest when there is a single sector"
             /\ (case.nsect = 1 /\ Cardinality(Admissible(case)) >= case.nmini /\ case.nmaxi > 0
-                  => Range(d) = Closest(case, Admissible(case), case.nmaxi))
+                  => RangeOf(d) = Closest(case, Admissible(case), case.nmaxi))
 \* ball-tree pre-selection: sufficient conditions under which the transcription of the ball path
 \* yields the definition (isotropic metric: Euclidean order = rank order)
 Inv_BallSufficient ==
@@ -141,19 +141,22 @@ EucKeys(c, m) == [i \in Idx(c) |->
                    ELSE Rank(c, i) * Geom.W[m][c.ndir][c.cands[i].sector + 1][i]]
 EucDistinct(c, e) == \A i, j \in Idx(c) : i # j => (e[i] - e[j] >= 50 \/ e[j] - e[i] >= 50)
 
-BallInfo(c, m) ==
-  LET e == EucKeys(c, m) IN
-  IF ~EucDistinct(c, e) \/ ~BallSide(c, e) THEN [side |-> FALSE]
-  ELSE [side |-> TRUE, cause |-> BallCause(c, e, m = 1), model |-> BallAlgorithm(c, e)]
+BallInfo(c, m, def) ==
+  IF c.nmaxi < 1 THEN [side |-> FALSE]
+  ELSE LET e == EucKeys(c, m) IN
+       IF ~BallSide(c, e) \/ ~EucDistinct(c, e) THEN [side |-> FALSE]
+       ELSE LET model == BallAlgorithm(c, e)
+            IN [side |-> TRUE, cause |-> BallCause(c, e, model, def), model |-> model]
 
-Out(c) == [ c |-> [i \in Idx(c) |-> LET x == c.cands[i] IN
+Out(c) == LET def == Definition(c) IN
+          [ c |-> [i \in Idx(c) |-> LET x == c.cands[i] IN
                      <<B2I(x.active), B2I(x.defined), x.distRank, x.sector, B2I(x.passesCheckers),
                        B2I(x.isTargetOrFold)>>],
             ndir |-> c.ndir, nsect |-> c.nsect, nmini |-> c.nmini, nmaxi |-> c.nmaxi, nsmax |-> c.nsmax,
             radiusRank |-> c.radiusRank, xvalid |-> c.xvalid, kfold |-> c.kfold, mix |-> c.mix,
-            expected |-> Definition(c),
-            ball |-> [m \in 1..NMetric |-> BallInfo(c, m)],
-            cat |-> Categories(c) ]
+            expected |-> def,
+            ball |-> [m \in 1..NMetric |-> BallInfo(c, m, def)],
+            cat |-> LET r == Categories(c) IN SetToSeq({k \in DOMAIN r : r[k]}) ]
 
 EmitSel(c) == \/ (NCand(c) <= FullN /\ c.ndir <= FullDir
                   /\ c.nmini <= FullP /\ c.nmaxi <= FullP /\ c.nsmax <= FullP)
